@@ -13,6 +13,8 @@ Abstract view used by the clauses (all read from raw fields):
 """
 from pyvc.spec import *
 
+GROUP = 'fsm'   # contracts of one group use each other's contracts at call sites (pyvc/hooks.py contract_for_call)
+
 MD = (SupvisorsStates.DISTRIBUTION, SupvisorsStates.OPERATION, SupvisorsStates.CONCILIATION,
       SupvisorsStates.RESTARTING, SupvisorsStates.SHUTTING_DOWN)
 SYNC_OPTIONS = (SynchronizationOptions.STRICT, SynchronizationOptions.LIST, SynchronizationOptions.TIMEOUT,
